@@ -10,7 +10,6 @@ import (
 
 	"github.com/NethermindEth/juno/consensus/p2p/config"
 	"github.com/NethermindEth/juno/core"
-	"github.com/NethermindEth/juno/mempool"
 	mempoolp2p "github.com/NethermindEth/juno/mempool/p2p"
 	pubsubtestutils "github.com/NethermindEth/juno/p2p/pubsub/testutils"
 	"github.com/NethermindEth/juno/utils/log"
@@ -119,9 +118,6 @@ func TestMempoolGossip(t *testing.T) {
 		}
 	}
 	out.Count("gossip_refused_at_origin", refused)
-	// a rejected transaction (legacy deploy is not in U; use a duplicate-free invalid one: nonce below the head is impossible at genesis) —
-	// push one the pool refuses for capacity instead: not applicable with Max = 64. The refusal path is covered by P2P.Push's code shape
-	// in the sequential replay (same Push); here: delivery.
 	// Nothing is popped while the messages travel (a node's own message comes back to it through
 	// its own subscription: whether the pool takes it a second time is the duplicate question, and
 	// a pool that has handed the first copy out already could not know). Arrival is seen in Len().
@@ -197,5 +193,4 @@ func TestMempoolGossip(t *testing.T) {
 	}
 	out.Done(1, in.Txs)
 	out.Count("gossip_transactions", in.Txs)
-	_ = mempool.ErrTxnPoolFull
 }
